@@ -692,6 +692,21 @@ theorem eintr_transparent (g : G) (t : Tid) (op : Op) (script : List Nat) :
 
 /-! ## sequential runs of the semaphore calls (one thread runs, everybody else is quiet) -/
 
+/-- `runCall` is unfolded only when the state of the thread's slot is known: a proof that no longer
+    matches the code gets stuck at once instead of unfolding symbolic runs -/
+theorem runCall_none (g : G) (t : Tid) (sc : List Nat) (fuel : Nat) (h : g.calls t = none) : runCall g t sc fuel = g := by
+  cases fuel <;> simp [runCall, h]
+
+theorem runCall_some (g : G) (t : Tid) (sc : List Nat) (fuel : Nat) (c : Call) (h : g.calls t = some c) :
+    runCall g t sc (fuel + 1) =
+      (match (((List.replicate (if c.next.interruptible then sc.headD 0 else 0) (Action.step t true)).foldl exec g).step t false).log with
+       | ⟨_, _, _, .block⟩ :: _ =>
+         ((List.replicate (if c.next.interruptible then sc.headD 0 else 0) (Action.step t true)).foldl exec g).step t false
+       | _ => runCall (((List.replicate (if c.next.interruptible then sc.headD 0 else 0) (Action.step t true)).foldl exec g).step t false) t sc.tail fuel) := by
+  rw [runCall]
+  simp only [h]
+  rfl
+
 /-- thread `t` can start a call: its process is alive and it has no call in flight -/
 structure Idle (g : G) (t : Tid) : Prop where
   alive : (g.os.procs (g.pidOf t)).alive = true
@@ -714,7 +729,7 @@ def OS.semSub (os : OS) (o : ObjId) : OS :=
   { os with sems := fun o' => if o' = o then ⟨(os.sems o).value - 1⟩ else os.sems o' }
 
 macro "seq_simp" " [" ts:Lean.Parser.Tactic.simpLemma,* "]" : tactic =>
-  `(tactic| simp [G.call, G.start, G.handleOf, G.setCall, G.setRet, G.setHandle, runCall, seqFuel, G.step,
+  `(tactic| simp [G.call, G.start, G.handleOf, G.setCall, G.setRet, G.setHandle, runCall_some, runCall_none, seqFuel, G.step,
     Call.next, Call.after, SemNewSt.next, SemNewSt.after, SemFreeSt.next, SemFreeSt.after, sysStep, Sys.interruptible,
     SemNewSt.handle, acquireNext, acquireAfter, releaseNext, releaseAfter,
     semOpenReopenInitZero, semCreateUnlinks, semCreateMarksCreated, semOpen1Retry, $ts,*])
@@ -867,7 +882,7 @@ theorem quiet_of_idle (k : SemKey) (g : G) (h : ∀ t, g.calls t = none) : Quiet
 /-! ## sequential runs of the shared-memory calls -/
 
 macro "shm_simp" " [" ts:Lean.Parser.Tactic.simpLemma,* "]" : tactic =>
-  `(tactic| simp [G.call, G.start, G.handleOf, G.setCall, G.setRet, G.setHandle, runCall, seqFuel, G.step,
+  `(tactic| simp [G.call, G.start, G.handleOf, G.setCall, G.setRet, G.setHandle, runCall_some, runCall_none, seqFuel, G.step,
     Call.next, Call.after, SemNewSt.next, SemNewSt.after, SemFreeSt.next, SemFreeSt.after, sysStep, Sys.interruptible,
     SemNewSt.handle, acquireNext, acquireAfter, releaseNext, releaseAfter,
     ShmNewSt.next, ShmNewSt.after, ShmNewSt.cleanFrom, ShmFreeSt.next, ShmFreeSt.after, lockMode,
